@@ -2,7 +2,12 @@
 
 A job (vocabulary of Isolate.tla) is
   {conn, ledger: [{u, posts: [v..], ty}..], tab: 'e'|'p'|'x', ty, star, targets: [{k, i}..], where: [{k, i}..], lo, hi, lit,
-   wpause, ppause, parse}
+   wpause, ppause, parse, sub: [c..]}
+Target atom {k: 'fn', i: 0, op: 'add'|'first', a, b} is a FUNCTION CALL over columns a and b with a run-time pause point
+between the evaluation of its operands -- realised by the library's own functions date_add(date, int), round(int, int),
+maxwidth(str, int); WHERE atoms 'flo' / 'fhi' are the tests of 'lo' / 'hi' written as date_diff(<value>, <key>) <= 0 / >= 0
+with the value (literal or query parameter) as FIRST operand and the pause point inside the second.  sub: the statement
+selects FROM (SELECT <column sub[0]> AS n<sub[0]>, ... FROM #table) and its atoms mean the names n<c>.
 A connection is realised either as a Beancount ledger (tables #entries / #postings and, for tab 'x', the typed tables
 #transactions / #prices / #events / #notes / #balances / #documents / #commodities: directive type ty; the abstract
 columns are realised by real columns -- id, date, narration, payee, tags, links, lineno, account, number, currency,
@@ -92,7 +97,16 @@ class HookTable(ht.HarnessTable):
     def wildcard_columns(self):
         if getattr(_flags, 'wpause', False):
             _hand_over()
-        return tuple(n for n, _ in self.colspec)
+        return tuple(n for n, _ in self.colspec[:3])
+
+
+# the harness tables: integer columns k, a, b (the abstract columns) and, outside SELECT *, the same values as dates
+HOOK_COLS = [('k', 'int'), ('a', 'int'), ('b', 'int'), ('kd', 'date'), ('ad', 'date'), ('bd', 'date')]
+DAY0 = '2020-01-01'        # BASE as a BQL literal
+
+
+def hook_rows(rows):
+    return [tuple(r) + tuple(datetime.date.fromordinal(BASE + v) for v in r) for r in rows]
 
 
 # ---- abstract tables (the same definition as TableRows in Isolate.tla; used to BUILD the data, never to judge) --------
@@ -236,6 +250,8 @@ class Case:
 
     def __init__(self, jobs, pick):
         import random
+        for j in jobs:
+            j.setdefault('sub', [])        # replay files written before FROM-subqueries existed
         self.jobs = jobs
         self.pick = pick
         r = random.Random(pick)
@@ -245,6 +261,7 @@ class Case:
             self.kinds[c] = 'tables' if c in need_tables or r.random() < 0.125 else 'ledger'
         self.params = r.choice(('named', 'positional'))
         self.anon = r.random() < 0.34
+        self.opform = (pick // 3) % 3 == 0      # calls written with binary operators (+, -) instead of functions
         x = r.random()
         self.submit = 'text' if x < 0.05 else 'shared-ast' if x < 0.3 else 'ast'
         self.conns = {}
@@ -267,16 +284,45 @@ class Case:
                 self.conns[c] = beanquery.connect('beancount:', entries=entries, errors=[],
                                                   options=dict(bopts.OPTIONS_DEFAULTS))
             else:
-                cols = [('k', 'int'), ('a', 'int'), ('b', 'int')]
                 typed = sorted({j['ty'] for j in self.jobs if j['conn'] == c and j['tab'] == 'x'})
-                self.conns[c] = ht.connection(HookTable('e', cols, table_rows(ledger, 'e')),
-                                              HookTable('p', cols, table_rows(ledger, 'p')),
-                                              *[HookTable('x%d' % ty, cols, table_rows(ledger, 'x', ty)) for ty in typed])
+                self.conns[c] = ht.connection(HookTable('e', HOOK_COLS, hook_rows(table_rows(ledger, 'e'))),
+                                              HookTable('p', HOOK_COLS, hook_rows(table_rows(ledger, 'p'))),
+                                              *[HookTable('x%d' % ty, HOOK_COLS, hook_rows(table_rows(ledger, 'x', ty)))
+                                                for ty in typed])
 
     def column(self, job, i):
         if self.kinds[job['conn']] == 'tables':
             return 'kab'[i - 1], _num
         return ledger_column(job['tab'], i, self.pick, job.get('ty', 0), mixed(job['ledger']))
+
+    def views(self, job):
+        """-> (as_int, as_date): abstract column / name c -> expression (text, builder) showing its value as an int / as
+        the day BASE + value: what the operands of the function calls are made of"""
+        tables = self.kinds[job['conn']] == 'tables'
+        if job['sub']:            # the names of a subquery that has calls above it are integers (see statement())
+            return (lambda c: X('n%d' % c)), (lambda c: fcall('date_add', X(DAY0), X('n%d' % c)))
+        if tables:
+            return (lambda c: X('kab'[c - 1])), (lambda c: X(('kd', 'ad', 'bd')[c - 1]))
+        if job['tab'] == 'p':     # row <<v, u, v>>: lineno shows the posting, date the directive
+            return ((lambda c: fcall('date_diff', X('date'), X(DAY0)) if c == 2 else X('lineno')),
+                    (lambda c: X('date') if c == 2 else fcall('date_add', X(DAY0), X('lineno'))))
+        if job['tab'] == 'x':     # typed tables: every abstract column shows the directive; `date` is what they all have
+            return (lambda c: fcall('date_diff', X('date'), X(DAY0))), (lambda c: X('date'))
+        return (lambda c: X('lineno')), (lambda c: X('date'))
+
+    def call(self, job, a, pause):
+        """target atom fn -> (expression, decoder): the library's own functions, the pause point inside the SECOND operand"""
+        as_int, as_date = self.views(job)
+        if a['op'] == 'add' and self.opform:      # the binary operator: left operand, (pause point, right operand), apply
+            return plus(as_int(a['a']), paren(plus(pause, as_int(a['b'])))), _num
+        if a['op'] == 'add':
+            return fcall('date_add', as_date(a['a']), plus(pause, as_int(a['b']))), _num
+        plain = (self.kinds[job['conn']] == 'ledger' and not job['sub'] and job['tab'] in 'ep' and a['a'] == 2
+                 and not mixed(job['ledger']))
+        if plain and (self.pick // 7) % 2:
+            name, dec = (('narration', _tail('n')), ('payee', _tail('p')))[(self.pick // 14) % 2]
+            return fcall('maxwidth', X(name), plus(pause, as_int(a['b']))), dec       # the width is at least 10
+        return fcall('round', as_int(a['a']), plus(pause, as_int(a['b']))), _num      # round(int, digits > 0) = int
 
     def statement(self, job, tid):
         """-> (text, parameters, decoders: one per output column or None for a pause target, value of the pause
@@ -286,36 +332,71 @@ class Case:
         rp = 'ypoint()' if self.anon else 'pause(%d)' % tid
         cp = 'cyield()' if self.anon else 'cpause(%d)' % tid
         val = 0 if self.anon else tid
+        pause0 = X('ypoint()') if self.anon else X('(pause(%d) - %d)' % (tid, tid))      # a pause point worth 0
+        atoms = list(job['targets']) + list(job['where'])
+        calls = any(a['k'] in ('fn', 'flo', 'fhi') for a in atoms)
+        sub = job['sub']
+        # a FROM-subquery: (SELECT <column c> AS n<c>, ...); the columns as integers when function calls work on the names
+        if sub and calls:
+            as_int = Case.views(self, dict(job, sub=[]))[0]
+            inner = {c: (as_int(c), _num) for c in sub}
+        elif sub:
+            inner = {c: (X(self.column(job, c)[0]), self.column(job, c)[1]) for c in sub}
+        column = (lambda c: (X('n%d' % c), inner[c][1])) if sub else (lambda c: (X(self.column(job, c)[0]), self.column(job, c)[1]))
         decs = []
         tgs = []          # (expression, name)
         if job['star']:
-            decs = [_num, _num, _num]
+            decs = [inner[c][1] for c in sub] if sub else [_num, _num, _num]
         else:
             for n, a in enumerate(job['targets']):
                 if a['k'] == 'col':
-                    expr, dec = self.column(job, a['i'])
+                    expr, dec = column(a['i'])
                     tgs.append((expr, 'c%d' % n))
                     decs.append(dec)
+                elif a['k'] == 'fn':
+                    expr, dec = self.call(job, a, pause0)
+                    tgs.append((expr, 'f%d' % n))
+                    decs.append(dec)
                 else:
-                    tgs.append((rp if a['k'] == 'rp' else cp, '%s%d' % ('p' if a['k'] == 'rp' else 'q', n)))
+                    tgs.append((X(rp if a['k'] == 'rp' else cp), '%s%d' % ('p' if a['k'] == 'rp' else 'q', n)))
                     decs.append(None)
-        key = self.column(job, 1)[0]
+        key = column(1)[0] if (not sub or 1 in sub) else None
         # the key of a typed table is its date column: bounds are dates there
-        kv = (lambda v: datetime.date.fromordinal(BASE + v)) if job['tab'] == 'x' and not tables else (lambda v: v)
+        dated = job['tab'] == 'x' and not tables and not (sub and calls)
+        day = lambda v: datetime.date.fromordinal(BASE + v)      # noqa
+        kv = day if dated else (lambda v: v)
         conj = []         # (text, builder)
         names = []
+        values = {}
         for a in job['where']:
-            if a['k'] in ('lo', 'hi'):
-                cls = ast.GreaterEq if a['k'] == 'lo' else ast.LessEq
+            if a['k'] in ('lo', 'hi', 'flo', 'fhi'):
+                which = a['k'][-2:]
+                value = (kv if a['k'][0] != 'f' else (lambda v: v) if self.opform else day)(job[which])
+                values[which] = value
                 if job['lit']:
-                    rhs, mk = str(kv(job[a['k']])), (lambda v=kv(job[a['k']]): ast.Constant(v))
+                    rhs, mk = str(value), (lambda v=value: ast.Constant(v))
                 elif self.params == 'named':
-                    rhs, mk = '%%(%s)s' % a['k'], (lambda k=a['k']: ast.Placeholder(k))
+                    rhs, mk = '%%(%s)s' % which, (lambda k=which: ast.Placeholder(k))
                 else:
                     rhs, mk = '%s', (lambda n=len(names): ast.Placeholder('', parseinfo=_positional_info(n)))
-                names.append(a['k'])
-                conj.append(('%s %s %s' % (key, '>=' if a['k'] == 'lo' else '<=', rhs),
-                             lambda cls=cls, mk=mk: cls(fragment(key), mk())))
+                names.append(which)
+                if a['k'] in ('lo', 'hi'):
+                    cls = ast.GreaterEq if a['k'] == 'lo' else ast.LessEq
+                    conj.append(('%s %s %s' % (key[0], '>=' if a['k'] == 'lo' else '<=', rhs),
+                                 lambda cls=cls, mk=mk: cls(key[1](), mk())))
+                else:
+                    # date_diff(<value>, <the key as a date, a pause point inside>) <= 0 / >= 0
+                    as_int, as_date = self.views(job)
+                    cls = ast.LessEq if a['k'] == 'flo' else ast.GreaterEq
+                    if self.opform:     # <value> - (<pause point> + <the key as an integer>) <= 0 / >= 0
+                        ki = plus(pause0, as_int(1))
+                        conj.append(('%s - (%s) %s 0' % (rhs, ki[0], '<=' if a['k'] == 'flo' else '>='),
+                                     lambda cls=cls, mk=mk, ki=ki: cls(ast.Sub(mk(), ki[1]()), ast.Constant(0))))
+                        continue
+                    kd = as_date(1)
+                    kd = fcall('date_add', kd, pause0) if '(' not in kd[0] else fcall('date_add', X(DAY0), plus(pause0, as_int(1)))
+                    conj.append(('date_diff(%s, %s) %s 0' % (rhs, kd[0], '<=' if a['k'] == 'flo' else '>='),
+                                 lambda cls=cls, mk=mk, kd=kd: cls(ast.Function('date_diff', [mk(), kd[1]()]), ast.Constant(0))))
             else:
                 f = rp if a['k'] == 'rp' else cp
                 conj.append(('%s = %d' % (f, val), lambda f=f: ast.Equal(fragment(f), ast.Constant(val))))
@@ -323,21 +404,29 @@ class Case:
             table = 'x%d' % job['ty'] if tables else TYPED_TABLE[job['ty']]
         else:
             table = ('e' if job['tab'] == 'e' else 'p') if tables else ('entries' if job['tab'] == 'e' else 'postings')
-        text = 'SELECT %s FROM #%s' % (', '.join('%s AS %s' % t for t in tgs) if tgs else '*', table)
+        source = '#' + table
+        if sub:
+            source = '(SELECT %s FROM #%s)' % (', '.join('%s AS n%d' % (inner[c][0][0], c) for c in sub), table)
+        text = 'SELECT %s FROM %s' % (', '.join('%s AS %s' % (e[0], n) for e, n in tgs) if tgs else '*', source)
         if conj:
             text += ' WHERE ' + ' AND '.join(c[0] for c in conj)
         params = None
         if not job['lit'] and names:
             if self.params == 'named':
-                params = (PausingDict if job['ppause'] else dict)(lo=kv(job['lo']), hi=kv(job['hi']))
+                params = (PausingDict if job['ppause'] else dict)(
+                    {k: values.get(k, kv(job[k])) for k in ('lo', 'hi')})
             else:
-                params = (PausingTuple if job['ppause'] else tuple)(kv(job[k]) for k in names)
+                params = (PausingTuple if job['ppause'] else tuple)(values[k] for k in names)
 
         def build():
-            targets = [ast.Target(fragment(e), name) for e, name in tgs] if tgs else ast.Asterisk()
+            targets = [ast.Target(e[1](), name) for e, name in tgs] if tgs else ast.Asterisk()
             nodes = [c[1]() for c in conj]
             where = None if not nodes else nodes[0] if len(nodes) == 1 else ast.And(nodes)
-            return ast.Select(targets, ast.Table(table), where, None, None, None, None, None)
+            source = ast.Table(table)
+            if sub:
+                source = ast.Select([ast.Target(inner[c][0][1](), 'n%d' % c) for c in sub], source, None, None, None, None,
+                                    None, None)
+            return ast.Select(targets, source, where, None, None, None, None, None)
         return text, params, decs, val, build
 
     def runner(self, tid):
@@ -381,7 +470,7 @@ class Case:
 
     def describe(self):
         return {'kinds': {str(k): v for k, v in self.kinds.items()}, 'params': self.params, 'anon': self.anon,
-                'submit': self.submit, 'pick': self.pick,
+                'submit': self.submit, 'pick': self.pick, 'calls': 'operators' if self.opform else 'functions',
                 'as_text': [t for t, j in enumerate(self.jobs, 1) if j.get('parse')]}
 
 
@@ -523,8 +612,44 @@ def _positional_info(n):
     return pi._replace(pos=pi.pos + 10 * n, endpos=pi.endpos + 10 * n)
 
 
+def X(text):
+    """an expression: (text, builder of a FRESH-enough syntax tree -- parsed fragments are shared, as before)"""
+    return text, (lambda: fragment(text))
+
+
+def fcall(name, *operands):
+    from beanquery.parser import ast
+    return ('%s(%s)' % (name, ', '.join(o[0] for o in operands)),
+            lambda: ast.Function(name, [o[1]() for o in operands]))
+
+
+def plus(x, y):
+    from beanquery.parser import ast
+    return '%s + %s' % (x[0], y[0]), (lambda: ast.Add(x[1](), y[1]()))
+
+
+def paren(x):
+    return '(%s)' % x[0], x[1]
+
+
 class PauseValue(Exception):
     pass
+
+
+class SerialFailure:
+    """what a statement run alone gave instead of rows"""
+
+    def __init__(self, ex):
+        self.ex = ex
+
+    def __repr__(self):
+        return 'raised %r' % (self.ex,)
+
+    def __eq__(self, other):
+        return False
+
+    def __ne__(self, other):
+        return True
 
 
 def project(raw, decs, val, idmap):
@@ -560,7 +685,10 @@ def run_serial(case):
     register()
     out = {}
     for tid in range(1, len(case.jobs) + 1):
-        out[tid] = case.runner(tid)[0]()
+        try:
+            out[tid] = case.runner(tid)[0]()
+        except Exception as ex:     # noqa  (an observation about the code: the caller compares it with the expected rows)
+            out[tid] = SerialFailure(ex)
     return out
 
 
@@ -578,7 +706,9 @@ def conn_mode(jobs):
 
 def shape(job):
     def atoms(xs):
-        return ','.join(a['k'] + (str(a['i']) if a['k'] == 'col' else '') for a in xs) or '-'
-    return '%s:%s:where=%s%s%s' % (job['tab'] + (str(job['ty']) if job['tab'] == 'x' else ''),
-                                   '*' if job['star'] else atoms(job['targets']), atoms(job['where']),
-                                   '' if job['lit'] else ':params', ':text' if job.get('parse') else '')
+        return ','.join(a['k'] + (str(a['i']) if a['k'] == 'col' else ':%s%d%d' % (a['op'], a['a'], a['b']) if a['k'] == 'fn' else '')
+                        for a in xs) or '-'
+    return '%s%s:%s:where=%s%s%s' % (job['tab'] + (str(job['ty']) if job['tab'] == 'x' else ''),
+                                     ':sub' + ''.join(map(str, job['sub'])) if job.get('sub') else '',
+                                     '*' if job['star'] else atoms(job['targets']), atoms(job['where']),
+                                     '' if job['lit'] else ':params', ':text' if job.get('parse') else '')
